@@ -11,7 +11,7 @@ Section Main.
   Lemma reach_pool tr s : run T F (init nq mx scripts) tr = Some s ->
     length s.(threads) <= mx /\ s.(maxt) = mx /\ ncallers s = length scripts.
   Proof.
-    intros Hr. destruct (reachable_pool_bounded T F nq mx scripts tr s Hr) as (H1 & H2 & H3). unfold ncallers. repeat split; [done|done|lia].
+    clear HK HT HF Hwf Hmx. intros Hr. destruct (reachable_pool_bounded T F nq mx scripts tr s Hr) as (H1 & H2 & H3). unfold ncallers. repeat split; [done|done|lia].
   Qed.
 
   (* the pool has a thread that is not frozen, or may still spawn one *)
@@ -54,7 +54,7 @@ Section Main.
   Lemma sync_blocked_is_caller tr s a ac fr rest :
     run T F (init nq mx scripts) tr = Some s -> s.(actors) !! a = Some ac -> ac.(stack) = fr :: rest -> sync_frame fr -> a < length scripts.
   Proof.
-    intros Hr Ea Es Hf. destruct (reach_pool tr s Hr) as (_ & _ & <-).
+    clear HK HT HF Hwf Hmx. intros Hr Ea Es Hf. destruct (reach_pool tr s Hr) as (_ & _ & <-).
     pose proof (reachable_shape T F nq mx scripts tr s Hr) as HS.
     destruct (kind_of s a ac HS Ea) as [[Hlt _]|(t & -> & Hok)]; [done|]. exfalso.
     rewrite Es in Hok. apply pool_ok_inv in Hok as [(-> & H1)|(-> & H1)]; by destruct fr.
@@ -74,3 +74,24 @@ Section Main.
     intros Hin. specialize (Hcal _ Hin). lia.
   Qed.
 End Main.
+
+(* checkable forms, for the examples *)
+Definition texc_b (T : tables) (F : facts) (B : list nat) (s : state) : bool :=
+  forallb (fun a => bool_decide (a ∈ B) || match step T F s a with None => true | Some _ => false end) (seq 0 (length s.(actors))).
+Lemma texc_b_sound T F B s : texc_b T F B s = true -> terminal_except T F B s.
+Proof.
+  intros H a Ha. unfold texc_b in H. rewrite forallb_forall in H.
+  destruct (decide (a < length (actors s))) as [Hlt|Hge].
+  - assert (Hin : In a (seq 0 (length (actors s)))) by (apply in_seq; lia). specialize (H a Hin).
+    rewrite bool_decide_false in H by done. cbn in H. by destruct (step T F s a).
+  - unfold step. rewrite (proj2 (lookup_ge_None _ _)) by lia. done.
+Qed.
+Definition frozen_b (s : state) (B : list nat) : bool :=
+  forallb (fun a => match s.(actors) !! a with
+                    | Some ac => match ac.(stack) with (FDRrun _ _ | FROrun _ _ | FSIrun _) :: _ => true | _ => false end
+                    | None => false end) B.
+Lemma frozen_b_sound s B : frozen_b s B = true -> frozen_ok s B.
+Proof.
+  intros H a Ha. unfold frozen_b in H. rewrite forallb_forall in H. specialize (H a). rewrite <- elem_of_list_In in H. specialize (H Ha).
+  destruct (actors s !! a) as [ac|]; [|done]. destruct (stack ac) as [|fr rest] eqn:E; [done|]. exists ac, fr, rest. repeat split; try done. by destruct fr.
+Qed.
